@@ -5,6 +5,7 @@ use crate::run::{Env, RunResult, Sub};
 
 pub mod c01;
 pub mod c02;
+pub mod c04;
 pub mod c09;
 pub mod c07;
 pub mod c08;
@@ -12,14 +13,16 @@ pub mod c10;
 pub mod c14;
 pub mod c15;
 pub mod c19;
+pub mod c20;
 pub mod strings;
 
-pub const ALL: &[&str] = &["C01", "C02", "C07", "C08", "C09", "C10", "C14", "C15", "C16", "C17", "C18", "C19"];
+pub const ALL: &[&str] = &["C01", "C02", "C04", "C07", "C08", "C09", "C10", "C14", "C15", "C16", "C17", "C18", "C19", "C20"];
 
 pub fn all_subs() -> Vec<Sub> {
     let mut v = Vec::new();
     v.extend(c01::subs());
     v.extend(c02::subs());
+    v.extend(c04::subs());
     v.extend(c09::subs());
     v.extend(c07::subs());
     v.extend(c08::subs());
@@ -27,6 +30,7 @@ pub fn all_subs() -> Vec<Sub> {
     v.extend(c14::subs());
     v.extend(c15::subs());
     v.extend(c19::subs());
+    v.extend(c20::subs());
     v.extend(strings::subs());
     v
 }
@@ -43,6 +47,7 @@ pub fn run(env: &mut Env) -> Option<RunResult> {
     Some(match env.prop {
         "C01" => c01::run(env),
         "C02" => c02::run(env),
+        "C04" => c04::run(env),
         "C09" => c09::run(env),
         "C07" => c07::run(env),
         "C08" => c08::run(env),
@@ -53,6 +58,7 @@ pub fn run(env: &mut Env) -> Option<RunResult> {
         "C17" => strings::run_c17(env),
         "C18" => strings::run_c18(env),
         "C19" => c19::run(env),
+        "C20" => c20::run(env),
         _ => return None,
     })
 }
@@ -99,6 +105,11 @@ pub fn meta(prop: &str) -> Meta {
             "exploration",
             "tape-generated valid packets are encoded by the library and decoded by the harness' reference decoder (written from the OASIS specs); the recovered wire-level values must equal project(packet), a name-keyed spec-number mapping that never uses `as u8`. Non-trivial: encoding longer than 4 bytes; distinct by hash of the encoding. Every reason/return code, property id per context and protocol level is required to have been exercised",
             &[COMMON_ASSUME, BOUNDS],
+        ),
+        "C04" => m(
+            "exploration",
+            "complete, minimally encoded frames: grammar-generated well-formed frames (valid packets projected to the wire model and re-spelled: long/short ack forms, shuffled properties, explicit empty property sections), the same with 1-3 injected catalogue malformations, and byte-mutated bodies with the header re-synthesised; oracle = the reference decoder under the pinned grammar (accept <=> accept, and on accept the normalised field values, total and body must agree). Frames that are incomplete or contain non-minimal var-ints are outside the quantifier and counted as skipped. Non-trivial/distinct: distinct frames (hash); classes = accept / each reject class, all of which must be reached",
+            &[COMMON_ASSUME, BOUNDS, "the pinned leniencies L1-L8 and strictnesses S1-S4 (DESIGN.md §5) are part of the oracle"],
         ),
         "C07" => m(
             "exploration",
@@ -155,6 +166,11 @@ pub fn meta(prop: &str) -> Meta {
                 &["overflow checks are enabled in the build that runs this check (relcheck profile)"],
             )
         },
+        "C20" => m(
+            "exploration",
+            "tape-generated valid packets (long-form projection verified to be accepted) x every applicable entry of the 30-entry malformation catalogue at every site where it applies (every string field, property, code byte; up to 48 sites per packet), decoded by the blocking, async and poll front-ends; the expected error variant and payload come from the catalogue (DESIGN.md Appendix C). Non-trivial/distinct: distinct (packet type, entry, edit description) triples; every catalogue entry must be hit",
+            &[COMMON_ASSUME, BOUNDS, "wrong-remaining-length entries assert the lenient front-ends only where the declared length is accounted for (DESIGN.md §7 C20)"],
+        ),
         _ => m("exploration", "", &[]),
     }
 }
